@@ -16,6 +16,8 @@ from ..kernelir import KInterp, PyVal
 from ..phys import bcol, check_equal, component, g, hook_summary, run_kernel
 from ..segments import Arm, tiling
 from ..source import AnalysisError
+from ..segments import canonical_bsm
+from ..arrnf import mk_opn
 
 BSM = "pandapipes.pf.build_system_matrix"
 P = "pandapipes.pipeflow"
@@ -67,7 +69,7 @@ def _bounds(segs):
 
 def r1_1(run):
     ix = run.index
-    f = ix.func(BSM + ".build_system_matrix")
+    f = canonical_bsm(ix)
     run.analysed(f)
     for heat in (False, True):
         arm = Arm(f, heat)
@@ -208,7 +210,7 @@ def _covers(parts, d):
 
 def r1_2(run):
     ix = run.index
-    f = ix.func(BSM + ".build_system_matrix")
+    f = canonical_bsm(ix)
     arm = Arm(f, False)
     w = run.where(f, f.node)
     groups = {}
@@ -302,7 +304,7 @@ def r1_3(run):
 
 def r1_4(run):
     ix = run.index
-    f = ix.func(BSM + ".build_system_matrix")
+    f = canonical_bsm(ix)
     arm = Arm(f, False)
     w = run.where(f, f.node)
     len_n, len_b = Poly.sym("len", "node_pit"), Poly.sym("len", "branch_pit")
@@ -345,59 +347,74 @@ def r1_4(run):
     lv = [st for st in arm.stmts if isinstance(st, ast.Assign) and U(st.targets[0]) == "load_vector"]
     ok = len(lv) == 1 and isinstance(lv[0].value, ast.Call) and arm.scalar(lv[0].value.args[0]) == len_n + len_b + (n_s or Poly())
     run.ob("assembler|load-vector-size", ok, "the load vector has the size of the matrix", w)
-    # solver side
+    # solver side: which slice of the solution vector updates which unknown (whole-function terms, arrnf)
+    from ..arrnf import ANF, C, FULL, base_of, key as tkey, match, show as tshow, walk
+
+    def updates(fi):
+        """{(pit kind, column): (row selector, lo, hi, pit term)} of the `pit[rows, COL] -= ... x[lo:hi] ...` stores"""
+        r = ANF(ix, fi).run()
+        out = {}
+        for s_ in r.stores():
+            if not (s_.aug and len(s_.index) == 2 and s_.index[1][0] == "k"):
+                continue
+            sol = [x for x in walk(s_.value) if x[0] == "idx" and len(x[2]) == 1 and x[2][0][0] == "slice" and x[1][0] == "call"
+                   and x[1][1][0] == "x" and x[1][1][1].endswith("spsolve")]
+            if len(sol) != 1:
+                continue
+            pit = base_of(s_.base)
+            old = ("idx", pit, s_.index)
+            minus = s_.value[0] == "op" and s_.value[1] == "-" and tkey(base_of(s_.value[2][1]) if s_.value[2][0] == "idx" else None) == tkey(pit) \
+                and s_.value[2][2] == s_.index
+            out[s_.index[1][1]] = (s_.index[0], sol[0][2][0][1], sol[0][2][0][2], pit, minus, s_)
+        return out
+
     s = ix.func(P + ".solve_hydraulics")
     run.analysed(s)
     ws = run.where(s, s.node)
-    upd = {}
-    for n in own_walk(s.node):
-        if isinstance(n, ast.AugAssign) and isinstance(n.op, ast.Sub) and isinstance(n.target, ast.Subscript):
-            t = U(n.target).replace(" ", "")
-            xs = [x for x in ast.walk(n.value) if isinstance(x, ast.Subscript) and U(x.value) == "x"]
-            if len(xs) == 1:
-                upd[t] = xs[0].slice
-
-    def sl_bounds(sl):
-        sarm = Arm(s, False)
-        conv = lambda e: (sarm.scalar(e) if e is not None else None)
-        return conv(sl.lower), conv(sl.upper)
-    exp = {"node_pit[:,PINIT]": (None, len_n), "branch_pit[:,MDOTINIT]": (len_n, len_n + len_b),
-           "node_pit[slack_nodes,MDOTSLACKINIT]": (len_n + len_b, None)}
-    for t, (lo, hi) in exp.items():
-        if t not in upd:
-            run.ob("solver|update|%s" % t, False, "the solver updates %s from the solution vector" % t, ws)
+    upd = updates(s)
+    L = lambda t: ("call", ("x", "builtins.len"), (t,), ())
+    npit = upd.get("idx_node.PINIT", (None,) * 4)[3]
+    bpit = upd.get("idx_branch.MDOTINIT", (None,) * 4)[3]
+    exp = {"idx_node.PINIT": ("node_pit[:,PINIT]", lambda: (C(None), L(npit))),
+           "idx_branch.MDOTINIT": ("branch_pit[:,MDOTINIT]", lambda: (L(npit), mk_opn("+", [L(bpit), L(npit)]))),
+           "idx_node.MDOTSLACKINIT": ("node_pit[slack_nodes,MDOTSLACKINIT]", lambda: (mk_opn("+", [L(bpit), L(npit)]), C(None)))}
+    for col, (label, bounds) in exp.items():
+        if col not in upd or npit is None or bpit is None:
+            run.ob("solver|update|%s" % label, False, "the solver updates %s from the solution vector" % label, ws)
             continue
-        glo, ghi = sl_bounds(upd[t])
-        run.ob("solver|update|%s" % t, glo == lo and ghi == hi,
-               "%s is updated from x[%s:%s], the matrix columns of that unknown" % (t, lo if lo is not None else "", hi if hi is not None else ""),
-               ws, detail="got x[%s:%s]" % (glo, ghi))
+        rows, lo, hi, pit, minus, ev = upd[col]
+        wlo, whi = bounds()
+        run.ob("solver|update|%s" % label, tkey(lo) == tkey(wlo) and tkey(hi) == tkey(whi) and minus,
+               "%s is decreased by x[%s:%s], the matrix columns of that unknown" % (label, tshow(wlo) if wlo != C(None) else "", tshow(whi) if whi != C(None) else ""),
+               run.where(s, ev.node), detail="got x[%s:%s]" % (tshow(lo)[:80], tshow(hi)[:80]))
     # same slack definition on both sides (after constant propagation of the hydraulic arm)
-    sdef = [U(v).replace(" ", "") for _, v, _ in assignments(s.node, "slack_nodes")]
+    ok = False
+    if "idx_node.MDOTSLACKINIT" in upd and npit is not None:
+        rows = upd["idx_node.MDOTSLACKINIT"][0]
+        want_rows = ("proj", ("call", ("x", "numpy.where"), (("cmp", "==", ("idx", npit, (FULL, ("k", "idx_node.NODE_TYPE"))), ("k", "idx_node.P")),), ()), 0)
+        alt = ("proj", ("call", ("x", "numpy.where"), (("cmp", "==", ("k", "idx_node.P"), ("idx", npit, (FULL, ("k", "idx_node.NODE_TYPE")))),), ()), 0)
+        ok = tkey(rows) in (tkey(want_rows), tkey(alt))
     adef = U(arm.arr.get("slack_nodes")).replace(" ", "")
     for k, v in (("ntyp_col", "NODE_TYPE"), ("slack_type", "P")):
         adef = adef.replace(k, v)
-    run.ob("slack-node-definition-agrees", len(sdef) == 1 and sdef[0] == adef,
-           "assembler and solver use the same slack-node set: %s" % adef, ws, detail=str(sdef))
+    run.ob("slack-node-definition-agrees", ok and adef == "np.where(node_pit[:,NODE_TYPE]==P)[0]",
+           "assembler and solver use the same slack-node set: %s" % adef, ws)
     tup = arm.arr.get("ntyp_col"), arm.arr.get("slack_type")
     run.ob("hydraulic-type-columns", U(tup[0]) == "NODE_TYPE" and U(tup[1]) == "P",
            "in the hydraulic arm the type column/constant are NODE_TYPE / P", w)
     # thermal solver side
     st_ = ix.func(P + ".solve_temperature")
-    upd = {}
-    for n in own_walk(st_.node):
-        if isinstance(n, ast.AugAssign) and isinstance(n.op, ast.Sub) and isinstance(n.target, ast.Subscript):
-            xs = [x for x in ast.walk(n.value) if isinstance(x, ast.Subscript) and U(x.value) == "x"]
-            if len(xs) == 1:
-                upd[U(n.target).replace(" ", "")] = xs[0].slice
-    sarm = Arm(st_, True)
-    for t, (lo, hi) in {"node_pit[:,TINIT]": (None, len_n), "branch_pit[:,TOUTINIT]": (len_n, None)}.items():
-        ok = t in upd
+    run.analysed(st_)
+    upd = updates(st_)
+    npit = upd.get("idx_node.TINIT", (None,) * 4)[3]
+    for col, label, bounds in (("idx_node.TINIT", "node_pit[:,TINIT]", lambda: (C(None), L(npit))),
+                               ("idx_branch.TOUTINIT", "branch_pit[:,TOUTINIT]", lambda: (L(npit), C(None)))):
+        ok = col in upd and npit is not None
         if ok:
-            sl = upd[t]
-            glo = sarm.scalar(sl.lower) if sl.lower is not None else None
-            ghi = sarm.scalar(sl.upper) if sl.upper is not None else None
-            ok = glo == lo and ghi == hi
-        run.ob("thermal-solver|update|%s" % t, ok, "%s is updated from its range of the thermal solution vector" % t,
+            rows, lo, hi, pit, minus, ev = upd[col]
+            wlo, whi = bounds()
+            ok = tkey(lo) == tkey(wlo) and tkey(hi) == tkey(whi) and minus and rows == FULL
+        run.ob("thermal-solver|update|%s" % label, ok, "%s is updated from its range of the thermal solution vector" % label,
                run.where(st_, st_.node))
     run.floor(11)
 
